@@ -211,7 +211,7 @@ TIdleTick ==
 
 TIdleCut ==
   /\ Live("idle_cut")
-  /\ LET d == (IF E.idle <= E.max THEN {"cut_before_max_idle"} ELSE {})
+  /\ LET d == (IF E.idle < E.max THEN {"cut_before_max_idle"} ELSE {})     \* both in whole ms: equality is not early
               \cup (IF E.idle > E.max + nd.poll + nd.slack THEN {"cut_later_than_max_idle_plus_poll"} ELSE {})
               \cup (IF E.max # nd.maxidle THEN {"max_idle_differs_from_configuration"} ELSE {})
               \cup (IF ~(Has(conn, E.peer) /\ conn[E.peer] = E.sess) THEN {"cut_of_unlisted_session"} ELSE {})
